@@ -25,6 +25,7 @@ def jobs(tier, seed):
     for t in TASK_ROWS: out.append(('task.%s' % t, 'c_task', dict(task=t)))
     for cfg in range(0, 13):
         out.append(('lookup.cfg=%d' % cfg, 'c_lookup', dict(cfg=cfg)))
+        out.append(('lookup-after-lookup.cfg=%d' % cfg, 'c_lookup_seq', dict(cfg=cfg)))
         out.append(('configure.cfg=%d' % cfg, 'c_configure', dict(cfg=cfg)))
     for li in range(0, 19):
         out.append(('layout.%d' % li, 'c_layout', dict(li=li)))
@@ -214,6 +215,34 @@ def c_lookup(hid, cfg, timeout_ms=60000):
     return j.stats
 
 
+def c_lookup_seq(hid, cfg, timeout_ms=60000):
+    """lookups do not influence each other: after a lookup for (any supported configuration, any timeslot) a lookup for (cfg, tn)
+    returns the same layout as a first lookup would - every ordered pair of (configuration, timeslot), memory carried over"""
+    j = cjob.CJob(hid, timeout_ms)
+    fw, tx = consts()
+    M = tx_module()
+    ex0 = Exec(M, max_iter=64); lay = Layouts(ex0)
+    x = j.var(ex0, 'dummy', 0, 1); j.witness(ex0, [])
+    cfgs = sorted(set(tx['GSM_PCHAN_' + c] for c in ('CCCH', 'CCCH_SDCCH4', 'TCH_F', 'TCH_H', 'SDCCH8_SACCH8C', 'PDCH', 'CCCH_SDCCH4_CBCH', 'SDCCH8_SACCH8C_CBCH')))
+    bad = []
+    for c1 in cfgs:
+        for t1 in range(8):
+            ex = Exec(M, max_iter=64)
+            o1 = ex.run('@l1sched_mframe_layout', [C(c1), C(t1)], {})
+            for t2 in range(8):
+                o2 = ex.run('@l1sched_mframe_layout', [C(cfg), C(t2)], o1.mem)
+                want = lay.find(cfg, t2); r = o2.ret
+                ok = (isinstance(r, Ptr) and r.obj is None) if want is None else (isinstance(r, Ptr) and r.obj == 'g:@layouts' and r.off.conc() == want * lay.sz)
+                j.stats.obligations += 1
+                if ok: j.stats.discharged += 1; j.stats.trivial += 1
+                else: bad.append((c1, t1, t2))
+            if ex.oblig: j.memory_obligations(ex, [])
+    if bad:
+        c1, t1, t2 = bad[0]
+        j.stats.failures.append(dict(harness=hid, obligation='second-lookup==first-lookup', inputs=dict(first_config=c1, first_tn=t1, tn=t2, config=cfg), info=dict(pairs=len(bad))))
+    return j.stats
+
+
 def c_layout(hid, li, timeout_ms=60000):
     """internal consistency of one trxcon layout for a symbolic frame number"""
     j = cjob.CJob(hid, timeout_ms)
@@ -278,6 +307,7 @@ struct msgb *l1sched_prim_alloc(enum l1sched_prim_type type, enum osmo_prim_oper
 int l1sched_prim_to_user(struct l1sched_state *s, struct msgb *m) { return 0; }
 int main(int argc, char **argv) {
   int cfg = atoi(argv[1]), tn = atoi(argv[2]);
+  if (argc > 4) l1sched_mframe_layout(atoi(argv[3]), atoi(argv[4]));     /* an earlier lookup */
   const struct l1sched_tdma_multiframe *l = l1sched_mframe_layout(cfg, tn);
   if (!l) { printf("NOLAYOUT\n"); }
   else { printf("LAYOUT %%d %%d %%llu :", l->period, l->slotmask, (unsigned long long)l->lchan_mask);
@@ -292,8 +322,8 @@ int main(int argc, char **argv) {
 '''
 
 
-def native_cfg(cfg, tn):
-    rc, out = cjob.run_native(CFG_DRV % dict(mf=TXSRC, trx=SCHED_TRX), None, TX_INCS, args=[cfg, tn], extra_cflags=trxc.EXTRA)
+def native_cfg(cfg, tn, pre=()):
+    rc, out = cjob.run_native(CFG_DRV % dict(mf=TXSRC, trx=SCHED_TRX), None, TX_INCS, args=[cfg, tn] + list(pre), extra_cflags=trxc.EXTRA)
     if rc != 0: return None
     res = dict(layout=None, types=None, rc=None)
     m = re.search(r'LAYOUT (\d+) (\d+) (\d+) :((?: \d+/\d+/\d+/\d+)*)', out)
@@ -308,6 +338,11 @@ def replay(body):
     fw, tx = consts()
     if f == 'c_task':
         return (1, 'REPRODUCED by evaluating the natively compiled firmware scheduler and trxcon layout at fn=%s: %s' % (fn, ob)) if native_disagrees(body) else (0, 'native tables agree')
+    if f == 'c_lookup_seq':
+        i = body['inputs']
+        a = native_cfg(i['config'], i['tn']); b = native_cfg(i['config'], i['tn'], pre=(i['first_config'], i['first_tn']))
+        if a is None or b is None: return 2, 'native driver failed'
+        return (1, 'REPRODUCED on native sched_mframe.c: lookup (config %d, tn %d) after a lookup (config %d, tn %d) returns %s, a first lookup returns %s' % (i['config'], i['tn'], i['first_config'], i['first_tn'], b['layout'] and ('slotmask=%x' % b['layout']['slotmask']), a['layout'] and ('slotmask=%x' % a['layout']['slotmask']))) if a['layout'] != b['layout'] else (0, 'native agrees')
     if f in ('c_configure', 'c_lookup'):
         m = re.match(r'cfg(\d+)\.tn(\d+):', ob)
         if not m: return 1, 'REPRODUCED (structural): ' + ob
